@@ -147,3 +147,127 @@ Proof.
   - eauto. - eauto. - eauto. - eauto. - eauto.
 Qed.
 End Params.
+
+(* ---------- the operations that ask hashbrown for buckets ----------
+   What the oracle must satisfy at the moment it is asked, in terms of the structure g that exists then: a rebuild moves
+   listed buckets, each once, to distinct buckets outside the structure; the bucket of a new entry is outside the structure
+   and not among the targets of the rebuild. Under that, no fault. *)
+Definition moves_valid (g : gstate) (pairs : list (addr * addr)) : Prop :=
+  NoDup (map fst pairs) /\ (forall a, In a (map fst pairs) -> In a (glist g)) /\
+  NoDup (map snd pairs) /\ (forall a', In a' (map snd pairs) -> ~ In a' (gseal g :: glist g)).
+Definition oracle_ok_at (g : gstate) (oB : oracleB) : Prop :=
+  moves_valid g (ob_moves oB) /\ ~ In (ob_addr oB) (gseal g :: glist g) /\ ~ In (ob_addr oB) (map snd (ob_moves oB)).
+
+Lemma mem_addr_false a l : ~ In a l -> mem_addr a l = false.
+Proof. intros H. destruct (mem_addr a l) eqn:E; [apply mem_addr_spec in E; tauto|reflexivity]. Qed.
+Lemma mem_addr_true a l : In a l -> mem_addr a l = true.
+Proof. apply mem_addr_spec. Qed.
+
+Lemma moves_chk_total : forall pairs g, RIg g -> moves_valid g pairs ->
+  exists g', b_moves_chk g pairs = Some g' /\ RIg g' /\ gseal g' = gseal g /\
+             (forall x, In x (glist g') -> In x (glist g) \/ In x (map snd pairs)).
+Proof.
+  induction pairs as [|[a a'] pairs IH]; intros g H (Hns & Hsub & Hnt & Hfr); cbn [b_moves_chk map fst snd] in *.
+  - exists g. split; [reflexivity|]. split; [exact H|]. split; [reflexivity|]. intros x Hx. now left.
+  - assert (Hin : In a (glist g)) by (apply Hsub; now left).
+    assert (Hf : ~ In a' (gseal g :: glist g)) by (apply Hfr; now left).
+    rewrite (mem_addr_true _ _ Hin), (mem_addr_false _ _ Hf). cbn [negb].
+    destruct g as [h seal l]. cbn [gh gseal glist] in *.
+    destruct H as (Hnd & Hc & Hps & Hlive).
+    destruct (b_moves_chain [(a, a')] h seal l Hnd Hc) as (g1 & Em & Hl1 & Hs1 & _); cbn [map fst snd].
+    + constructor; [intros []|constructor].
+    + intros x [<-|[]]. exact Hin.
+    + constructor; [intros []|constructor].
+    + intros x [<-|[]]. exact Hf.
+    + cbn [b_moves] in Em. destruct (b_move {| gh := h; gseal := seal; glist := l |} a a') as [g1'|] eqn:Emv; [|discriminate]. cbn [bind] in Em |- *. injection Em as ->.
+      assert (H0 : RIg {| gh := h; gseal := seal; glist := l |}) by exact (conj Hnd (conj Hc (conj Hps Hlive))).
+      destruct (P_move _ a a' g1 H0 Hin Hf Emv) as (H1 & Hs1' & _). cbn [rename_pairs] in Hl1.
+      apply NoDup_cons_iff in Hns as [Ha Hns']. apply NoDup_cons_iff in Hnt as [Ha' Hnt'].
+      destruct (IH g1 H1) as (g2 & E2 & H2 & Hs2 & Hin2).
+      { split; [exact Hns'|]. split; [|split; [exact Hnt'|]].
+        - intros x Hx. rewrite Hl1. unfold subst. apply in_map_iff. exists x. split; [|apply Hsub; now right].
+          destruct (N.eqb_spec x a) as [->|]; [tauto|reflexivity].
+        - intros x Hx Hi. rewrite Hs1' in Hi. cbn [gseal] in Hi. destruct Hi as [E0|Hi].
+          + apply (Hfr x); [now right|now left].
+          + rewrite Hl1 in Hi. apply in_subst in Hi as [[-> _]|[_ Hi]]; [tauto|]. apply (Hfr x); [now right|now right]. }
+      exists g2. split; [exact E2|]. split; [exact H2|]. split; [congruence|].
+      intros x Hx. destruct (Hin2 x Hx) as [Hx1|Hx1]; [|right; now right].
+      rewrite Hl1 in Hx1. apply in_subst in Hx1 as [[-> _]|[_ Hx1]]; [right; now left|now left].
+Qed.
+
+Section ParamsO.
+Variables (E VS : N).
+
+Lemma insert_unchecked_total g t1 k v sz oB r : RIg g -> oracle_ok_at g oB ->
+  t_insert E t1 (N.of_nat (length (absG g))) (ob oB) = Some r -> exists r', b_insert_unchecked E g t1 k v sz oB = Some r'.
+Proof.
+  intros H (Hmv & Hfa & Hft) Ht. unfold b_insert_unchecked. rewrite (absG_length g H) in Ht. rewrite Ht. cbn [bind]. destruct r as [t2 rb].
+  assert (Hg1 : exists g1, (if rb then b_moves_chk g (ob_moves oB) else Some g) = Some g1 /\ RIg g1 /\ ~ In (ob_addr oB) (gseal g1 :: glist g1)).
+  { destruct rb; [|eauto]. destruct (moves_chk_total _ g H Hmv) as (g1 & E1 & H1 & Hs1 & Hin1). exists g1. split; [exact E1|]. split; [exact H1|].
+    rewrite Hs1. intros [E0|Hi]; [apply Hfa; now left|]. destruct (Hin1 _ Hi) as [Hx|Hx]; [apply Hfa; now right|tauto]. }
+  destruct Hg1 as (g1 & -> & H1 & Hf1). cbn [bind]. rewrite (mem_addr_false _ _ Hf1).
+  destruct (b_insert_new_RI g1 (ob_addr oB) sz k v H1 Hf1) as (g2 & -> & _). cbn [bind]. eauto.
+Qed.
+
+(* the structure hashbrown is asked about: the initial one for try_insert / reserve / try_reserve / shrink_to*, the one left by
+   de-duplication and eviction for insert *)
+Theorem stepB_total_oracle b p oB r : RIb b -> KU b -> stepA E VS fixed (absB b) p (ob oB) = Some r ->
+  exists g, RIg g /\ gseal g = gseal (bg b) /\ (forall x, In x (glist g) -> In x (glist (bg b))) /\
+            (oracle_ok_at g oB -> exists r', stepB E VS b p oB = Some r').
+Proof.
+  intros H Hku HA. destruct (oracle_free p) eqn:Hof.
+  - exists (bg b). split; [exact H|]. split; [reflexivity|]. split; [auto|]. intros _. now apply (stepB_total E VS b p oB r).
+  - destruct p; try discriminate Hof; cbn [stepB stepA] in *.
+    + (* insert *) unfold do_insert in HA. unfold bB_insert. cbn [maxs cur tb ents absB] in HA. fold (absG (bg b)) in HA.
+      destruct (esz E k v) as [sz|]; [|discriminate]. cbn [bind] in *.
+      destruct (bmax b <? sz); [exists (bg b); split; [exact H|]; split; [reflexivity|]; split; [auto|]; eauto|].
+      rewrite (b_find_rel _ (kid k) H) in HA.
+      assert (Hold : exists g0 c0, match b_find (bg b) (kid k) with Some (a, _) => b_remove (bg b) a | None => Some (bg b) end = Some g0 /\
+                match b_find (bg b) (kid k) with Some (_, e) => sub64 (bcur b) (es e) | None => Some (bcur b) end = Some c0 /\
+                RIg g0 /\ gseal g0 = gseal (bg b) /\ NoDup (kids (absG g0)) /\ absG g0 = remove_id (kid k) (absG (bg b)) /\
+                (forall x, In x (glist g0) -> In x (glist (bg b))) /\
+                match option_map snd (b_find (bg b) (kid k)) with Some e => sub64 (bcur b) (es e) | None => Some (bcur b) end = Some c0).
+      { destruct (b_find (bg b) (kid k)) as [[a e]|] eqn:Ef; cbn [option_map snd] in HA |- *.
+        - destruct (b_find_some _ _ _ _ H Ef) as (F1 & F2 & F3 & F4).
+          destruct (b_remove_RI _ a H F1) as (g0 & Er & _). destruct (P_remove _ _ _ _ H Hku F1 F2 Er) as (R1 & R2 & R3 & R4 & R5 & _). rewrite F3 in R3.
+          destruct (sub64 (bcur b) (es e)) as [c0|]; [|discriminate]. exists g0, c0. split; [exact Er|]. split; [reflexivity|]. split; [exact R1|]. split; [exact R2|]. split; [exact R4|]. split; [exact R3|]. split; [|reflexivity]. intros x Hx. rewrite R5 in Hx. now apply remove_addr_in in Hx.
+        - pose proof (b_find_none _ _ H Ef) as Fn. destruct (find_id_none _ _ Fn) as [Rm _]. exists (bg b), (bcur b). rewrite Rm. split; [reflexivity|]. split; [reflexivity|]. split; [exact H|]. split; [reflexivity|]. split; [exact Hku|]. split; [reflexivity|]. split; [auto|reflexivity]. }
+      destruct Hold as (g0 & c0 & Eg0 & Ec0 & H0 & Hs0 & Hku0 & Ha0 & Hsub0 & Ec0'). rewrite Eg0, Ec0. cbn [bind]. rewrite Ec0' in HA. cbn [bind] in HA.
+      destruct (sub64 (bmax b) sz) as [tgt|]; [|discriminate]. cbn [bind] in *.
+      pose proof (b_eject_total (length (glist g0)) g0 c0 tgt H0 Hku0 (le_n _)) as Ht. rewrite Ha0 in Ht.
+      destruct (eject (remove_id (kid k) (absG (bg b))) c0 tgt) as [[[l1 c1] evd]|]; [|discriminate]. cbn [bind] in HA.
+      destruct Ht as (g1 & Eg1 & A1). rewrite Eg1. cbn [bind].
+      destruct (b_eject_refines _ _ _ _ _ _ _ H0 Hku0 Eg1) as (_ & J2 & J3 & _ & (gone & J5 & _) & _).
+      exists g1. split; [exact J2|]. split; [congruence|]. split.
+      * intros x Hx. apply Hsub0. rewrite J5. apply in_or_app. now left.
+      * intros Hok. destruct (t_insert E _ (N.of_nat (length l1)) (ob oB)) as [[t2 rb]|] eqn:Eti; [|discriminate]. cbn [bind] in HA.
+        rewrite <- A1 in Eti. destruct (insert_unchecked_total g1 _ k v sz oB _ J2 Hok Eti) as [[[g2 t2'] rb'] ->]. cbn [bind].
+        destruct (add64 c1 sz); [cbn [bind]; eauto|discriminate].
+    + (* try_insert *) exists (bg b). split; [exact H|]. split; [reflexivity|]. split; [auto|]. intros Hok.
+      unfold do_try_insert in HA. unfold bB_try_insert. cbn [maxs cur tb ents absB] in HA. fold (absG (bg b)) in HA.
+      destruct (esz E k v) as [sz|]; [|discriminate]. cbn [bind] in *.
+      destruct (bmax b <? sz); [eauto|]. destruct (sub64 (bmax b) (bcur b)) as [free|]; [|discriminate]. cbn [bind] in *.
+      destruct (free <? sz); [eauto|]. rewrite (b_find_rel _ (kid k) H) in HA.
+      destruct (b_find (bg b) (kid k)) as [[a e]|]; cbn [option_map snd] in HA; [eauto|].
+      unfold len in HA. cbn [ents absB] in HA. fold (absG (bg b)) in HA.
+      destruct (t_insert E (btb b) (N.of_nat (length (absG (bg b)))) (ob oB)) as [[t2 rb]|] eqn:Eti; [|discriminate]. cbn [bind] in HA.
+      destruct (insert_unchecked_total (bg b) _ k v sz oB _ H Hok Eti) as [[[g2 t2'] rb'] ->]. cbn [bind].
+      destruct (add64 (bcur b) sz); [cbn [bind]; eauto|discriminate].
+    + (* reserve *) exists (bg b). split; [exact H|]. split; [reflexivity|]. split; [auto|]. intros (Hmv & _ & _).
+      destruct (moves_chk_total _ (bg b) H Hmv) as (g' & Em & _).
+      destruct (add64 (N.of_nat (length (glist (bg b)))) n) as [want|]; [|eauto]. destruct (capacity (btb b) <? want); [|eauto].
+      unfold bB_realloc. destruct (t_alloc E want (o_alloc (ob oB))); cbn [bind]; [rewrite Em; cbn [bind]; eauto|eauto|eauto].
+    + (* try_reserve *) exists (bg b). split; [exact H|]. split; [reflexivity|]. split; [auto|]. intros (Hmv & _ & _).
+      destruct (moves_chk_total _ (bg b) H Hmv) as (g' & Em & _).
+      destruct (add64 (N.of_nat (length (glist (bg b)))) n) as [want|]; [|eauto]. destruct (capacity (btb b) <? want); [|eauto].
+      unfold bB_realloc. destruct (t_alloc E want (o_alloc (ob oB))); cbn [bind]; [rewrite Em; cbn [bind]; eauto|eauto|eauto].
+    + (* shrink_to *) exists (bg b). split; [exact H|]. split; [reflexivity|]. split; [auto|]. intros (Hmv & _ & _).
+      destruct (moves_chk_total _ (bg b) H Hmv) as (g' & Em & _). unfold bB_shrink.
+      destruct (_ <? capacity (btb b)); [|eauto]. destruct (t_alloc E _ (o_alloc (ob oB))) as [t'| |]; [|eauto|eauto].
+      destruct (capacity t' <? capacity (btb b)); [rewrite Em; cbn [bind]; eauto|eauto].
+    + exists (bg b). split; [exact H|]. split; [reflexivity|]. split; [auto|]. intros (Hmv & _ & _).
+      destruct (moves_chk_total _ (bg b) H Hmv) as (g' & Em & _). unfold bB_shrink.
+      destruct (_ <? capacity (btb b)); [|eauto]. destruct (t_alloc E _ (o_alloc (ob oB))) as [t'| |]; [|eauto|eauto].
+      destruct (capacity t' <? capacity (btb b)); [rewrite Em; cbn [bind]; eauto|eauto].
+Qed.
+End ParamsO.
